@@ -16,6 +16,7 @@ package bytes
 import (
 	"fmt"
 	"github.com/acquirecloud/golibs/errors"
+	"math"
 	"os"
 	"sync"
 	"sync/atomic"
@@ -69,7 +70,7 @@ func GetBlocksInSegment(blkSize int) int {
 		if blkSize&(blkSize-1) != 0 {
 			return -1
 		}
-	} else if blkSize%pageSize != 0 {
+	} else if blkSize%pageSize != 0 || blkSize > (math.MaxInt-1)/8 {
 		return -1
 	}
 
@@ -87,7 +88,7 @@ func GetBlocksInSegment(blkSize int) int {
 func NewBlocks(bs int, bts Buffer, fit bool) (*Blocks, error) {
 	// get absolute number of blocks in a segment
 	blksInSegm := GetBlocksInSegment(bs)
-	if blksInSegm < 0 {
+	if blksInSegm < 0 || int64(bs) > math.MaxInt64/int64(blksInSegm) {
 		return nil, fmt.Errorf("incorrect block size=%d, should multiple on naturanl integer to get %d: %w ", bs, os.Getpagesize(), errors.ErrInvalid)
 	}
 
